@@ -192,8 +192,8 @@ End Layout.
 
 Example fixed_size_ex :
   fixed_size (t_schema (modify_top {| t_nullable := false; t_schema :=
-     SObj None [([97], {| p_index := 0; p_default := None |}, SArr (AFixed 3) (SLeaf TInteger (Some (BInt Ih)) false));
-                ([98], {| p_index := 0; p_default := None |}, SLeaf TString (Some (BStr 5)) true)] |})) = Some 11.
+     SObj None [([97], {| p_index := 0; p_default := None |}, SArr (AFixed 3) (SLeaf TInteger (Some (BInt Ih)) 0%nat));
+                ([98], {| p_index := 0; p_default := None |}, SLeaf TString (Some (BStr 5)) 1%nat)] |})) = Some 11.
 Proof. reflexivity. Qed.
 
 (* ------------------------------------------------------------ regenerated facts *)
